@@ -273,7 +273,8 @@ MATRIX_OUTERS = ("none", "for", "while", "if", "else", "try_finally", "try_excep
                  "in_finally", "in_else", "with_S", "with_A", "match", "for_else", "while1")
 MATRIX_EXITS = ("fall", "ret_c", "ret_v", "break", "continue", "raise_out", "raise_swallow",
                 "c_ret_c", "c_ret_v", "c_break", "c_continue", "c_raise", "c_ret_else_raise",
-                "try_ret", "try_except_last", "loop_last", "susp_last", "nested_ret")
+                "try_ret", "try_except_last", "loop_last", "susp_last", "nested_ret",
+                "try_exc_ret_c", "try_exc_c_ret_v", "try_exc_c_break", "try_exc_c_continue")
 
 
 def _matrix_items(variant):
@@ -310,6 +311,17 @@ def _matrix_exit(kind):
         return [["try", [["ret_v"]], [], None, [["probe"]]]], False, False
     if kind == "try_except_last":
         return [["try", [["if", [["raise", "E1"]], None]], [["E1", [["probe"]]]], None, None]], False, False
+    # leaving the with block from inside a try/except (or try/finally) nested in its body: the
+    # exit call's predecessors are covered by the inner handler first, the with's handler is only
+    # reached through the handler chain
+    if kind == "try_exc_ret_c":
+        return [["try", [["ret_c"]], [["E1", [["probe"]]]], None, None]], False, False
+    if kind == "try_exc_c_ret_v":
+        return [["try", [["if", [["ret_v"]], None], ["probe"]], [["any", [["probe"]]]], None, None]], False, False
+    if kind == "try_exc_c_break":
+        return [["try", [["if", [["break"]], None], ["susp"]], [["E1", [["probe"]]]], None, [["probe"]]]], True, False
+    if kind == "try_exc_c_continue":
+        return [["try", [["if", [["continue"]], None]], [["E12", [["probe"]]]], None, None]], True, False
     if kind == "loop_last":
         return [["for", [["if", [["break"]], None], ["susp"]], None]], False, False
     if kind == "susp_last":
@@ -332,7 +344,7 @@ def matrix_programs(variants=VARIANTS):
                     tail, needs_loop, needs_catch = _matrix_exit(ex)
                     w = ["with", is_async, items, [["susp"]] + tail]
                     inner = [w, ["susp"]]
-                    if outer == "while1" and ex == "continue":
+                    if outer == "while1" and ex in ("continue",):
                         continue          # would never terminate
                     if needs_loop and outer not in ("for", "while", "for_else", "while1"):
                         inner = [["for", inner, None]]
@@ -1749,11 +1761,11 @@ TIERS = {
     # and reports truncated=True.
     # throw_every / throw_k / throw_runs: every n-th program is also resumed with throw(E1) at each
     # of its first throw_k suspensions, exploring up to throw_runs branch vectors each.
-    "quick": dict(special_stride=12, matrix_stride=53, enum={2: 1, 3: 12}, random=26, max_nodes=(6, 12), max_runs=24,
+    "quick": dict(special_stride=12, matrix_stride=79, enum={2: 1, 3: 12}, random=22, max_nodes=(6, 12), max_runs=24,
                   throw_every=3, throw_k=8, throw_runs=6, running_stride=5, deadline=36.0),
-    "thorough": dict(matrix_stride=3, enum={2: 1, 3: 1, 4: 6}, random=400, max_nodes=(5, 14), max_runs=48,
+    "thorough": dict(matrix_stride=4, enum={2: 1, 3: 1, 4: 6}, random=400, max_nodes=(5, 14), max_runs=48,
                      throw_every=2, throw_k=6, throw_runs=6, running_stride=4, deadline=440.0),
-    "tiny": dict(special_stride=60, matrix_stride=211, enum={2: 4}, random=4, max_nodes=(5, 8), max_runs=8,
+    "tiny": dict(special_stride=60, matrix_stride=431, enum={2: 4}, random=4, max_nodes=(5, 8), max_runs=8,
                  throw_every=4, throw_k=8, throw_runs=4, running_stride=1, deadline=20.0),
 }
 
